@@ -58,14 +58,18 @@ func run(seed int64, n int, dir string, _ []string) {
 			}
 			o.Count("stmt:" + st.Kind)
 			o.Count("result:" + res)
-			t := r.Tab(st.Targets[0])
-			store := "temp"
-			if t.File {
-				store = "file"
+			store, rows := "new", 0
+			if len(st.Targets) > 0 {
+				t := r.Tab(st.Targets[0])
+				rows = t.NextID
+				store = "temp"
+				if t.File {
+					store = "file"
+				}
 			}
 			o.Count("store:" + store)
-			o.Count(fmt.Sprintf("rows~%d", band(t.NextID)))
-			o.NonTrivial(fmt.Sprintf("%s:%s:%s:%d:cpu%d:pos%d:%s", st.Kind, res, store, band(t.NextID), r.CPU, i/5, countBand(out.Counts)))
+			o.Count(fmt.Sprintf("rows~%d", band(rows)))
+			o.NonTrivial(fmt.Sprintf("%s:%s:%s:%d:cpu%d:pos%d:%s", st.Kind, res, store, band(rows), r.CPU, i/5, countBand(out.Counts)))
 			if g.Intn(12) == 0 {
 				r.Commit()
 			}
